@@ -105,6 +105,15 @@ Theorem C31_fifo_one_pending :
 Proof. exact fifo_pending_le1. Qed.
 Print Assumptions C31_fifo_one_pending.
 
+(* FULL (FifoWorker, restarts included): the executed trace stays weakly increasing — the only possible
+   repetition is the entry that was pending at a crash, re-executed before anything later runs *)
+Theorem C31_fifo_restart_order :
+  forall (lg : log) (evs : list event),
+    StronglySorted N.lt (indices lg) ->
+    StronglySorted N.le (trace (run FifoWorker lg evs)).
+Proof. exact fifo_restart_order. Qed.
+Print Assumptions C31_fifo_restart_order.
+
 (* REFUTED for the pinned discipline: one commit call covering two entries starts two independent tasks;
    the schedule running the second first executes index 2 before index 1 *)
 Theorem C31_spawn_refuted :
